@@ -194,6 +194,10 @@ class Battle(history.History):
         return None
 
 
+class Py2Str(str):
+    """a text the Python 2 client pickles as a byte string"""
+
+
 class Py2Text(dict):
     """a nested value whose text (dict keys, strings) the game client, a Python 2 program, pickles as byte strings; as a Python object
     it is the dict the summary must show (text as str)"""
@@ -207,7 +211,7 @@ def deep_value(depth):
 
 
 def _has_py2(obj):
-    if isinstance(obj, Py2Text):
+    if isinstance(obj, (Py2Text, Py2Str, set, frozenset)):
         return True
     if isinstance(obj, dict):
         return any(_has_py2(k) or _has_py2(v) for k, v in obj.items())
@@ -236,9 +240,14 @@ def py2_dumps(obj):
                 out.append(b'\x8a' + bytes([len(raw)]) + raw)
         elif isinstance(x, float):
             out.append(b'G' + struct.pack('>d', x))
+        elif isinstance(x, (set, frozenset)):
+            out.append(b'c__builtin__\n' + (b'set' if isinstance(x, set) else b'frozenset') + b'\n(](')
+            for y in sorted(x, key=repr):
+                put(y, py2)
+            out.append(b'etR')
         elif isinstance(x, str):
             raw = x.encode('utf-8')
-            if py2:
+            if py2 or isinstance(x, Py2Str):
                 out.append((b'U' + bytes([len(raw)]) if len(raw) < 256 else b'T' + struct.pack('<i', len(raw))) + raw)
             else:
                 out.append(b'X' + struct.pack('<I', len(raw)) + raw)
@@ -385,7 +394,7 @@ def build(rng, game, version, views, rich=False, ids=None):
         exp['arena_id'] = arena_id
         b.trace.append(['arena', arena_id])
         for p in players:
-            b.trace.append(['roster', p['id'], [[k, json.dumps(v)] for k, v in p.items()]])
+            b.trace.append(['roster', p['id'], [[k, json.dumps(v, default=str)] for k, v in p.items()]])
     # pose packets for every entity (ids may come from the literal dictionary)
     for eid in [AVATAR_ID] + vehicles:
         if -2 ** 31 <= eid < 2 ** 31:
@@ -402,6 +411,8 @@ def build(rng, game, version, views, rich=False, ids=None):
     events(b, rng, exp, ver, players, vehicles, consts)
     if rng.random() < 0.7:
         world_fields(b, rng, consts, vehicles)          # the last update is what the final world shows
+    for _ in range(rng.choice([0, 1, 2])):
+        control_point_slice(b, rng, consts)
     world_expectation(b, exp, consts, vehicles, exp.get('death_map', []))
     return b, exp
 
@@ -500,6 +511,42 @@ def world_fields(b, rng, consts, vehicles):
                 b.set_prop(LOGIC_ID, name, rich_value(rng, history.peel(t), name, consts))
 
 
+def control_point_slice(b, rng, consts):
+    """a path-addressed update of the battle logic's state: one more control point appended by a slice (is_slice = 1, element data) --
+    what a nested-change subscriber on `state.controlPoints` is told about, and what the summary's control points must show afterwards"""
+    if 'nested' not in b.tab or LOGIC_ID not in b.world:
+        return False
+    ent = b.world[LOGIC_ID]
+    props = b.views[ent['type']]['clientProps']
+    for pi, (name, size, t, flags) in enumerate(props):
+        pt = history.peel(t)
+        if name != 'state' or pt['k'] != 'dict' or ent['client'].get('state') is None:
+            continue
+        for fi, (fname, ft) in enumerate(pt['fields']):
+            lt = history.peel(ft)
+            cur = field_of(ent['client']['state'], 'controlPoints')
+            if fname != 'controlPoints' or lt['k'] != 'array' or lt['size'] is not None or not isinstance(cur, list):
+                continue
+            elem = rich_value(rng, history.peel(lt['of']), 'controlPoints', consts)
+            data = wire.encode(lt['of'], elem, 1)
+            if not data:
+                return False
+            bw = history.BitWriter()
+            bw.put(1, 1)
+            bw.put(pi, history.bits_required(len(props)))
+            bw.put(1, 1)
+            bw.put(fi, history.bits_required(len(pt['fields'])))
+            bw.put(0, 1)
+            w = history.bits_required(len(cur) + 1)
+            bw.put(len(cur), w)
+            bw.put(len(cur), w)
+            body = bw.bytes() + data
+            cur.append(elem)
+            b.emit('nested', struct.pack('<IbI', LOGIC_ID, 1, len(body)) + body, id=LOGIC_ID, path=['state', 'controlPoints', 'append'], op='slice')
+            return True
+    return False
+
+
 def world_expectation(b, exp, consts, vehicles, deaths):
     """what the summary must say about the final world, restated from the tracker and the version's own tables"""
     state = (b.world.get(LOGIC_ID) or {}).get('client', {}).get('state')
@@ -563,7 +610,7 @@ def events(b, rng, exp, ver, players, vehicles, consts):
             for kind in ('player', 'bot', 'observer'):
                 for row in kinds0.get(kind, []):
                     by_id.setdefault(row['id'], {}).update(row)
-                    b.trace.append(['roster', row['id'], [[k, json.dumps(v)] for k, v in row.items()]])
+                    b.trace.append(['roster', row['id'], [[k, json.dumps(v, default=str)] for k, v in row.items()]])
 
     def roster_message(meth, force_all=False, pl=None):
         if not force_all and pl is None and sent_rosters and rng.random() < 0.25:
@@ -576,6 +623,12 @@ def events(b, rng, exp, ver, players, vehicles, consts):
         deep_names = [nm for nm in ('dogTag', 'crewParams', 'playerMode', 'skinId', 'prebattleId') if nm in table.values()]
         if deep_names and (force_all or rng.random() < 0.4):
             upd[deep_names[0]] = deep_value(rng.choice([0, 1, 3, 40, 120, 150]))
+        if len(deep_names) > 1 and (force_all or rng.random() < 0.3):
+            # a set is a legal pickled value (the shipped encoder writes str(o) for it); members of different kinds
+            upd[deep_names[1]] = rng.choice([{1, None}, frozenset([2, None]), {3}])
+        if force_all or rng.random() < 0.3:
+            # names as the Python 2 client pickles them (byte strings), up to well beyond a kilobyte
+            upd['name'] = Py2Str(rng.choice(['N', 'clan_tag_', 'x']) * rng.choice([1, 40, 400, 1500]))
         m = b.method_def('Avatar', meth)
         # the roster messages carry up to three lists (players, bots, observers), each with its own index -> name table
         kinds = {'player': [upd]}
@@ -613,7 +666,7 @@ def events(b, rng, exp, ver, players, vehicles, consts):
                 for kind in ('player', 'bot', 'observer'):          # the order in which the controllers merge the three lists
                     for row in kinds.get(kind, []):
                         by_id.setdefault(row['id'], {}).update(row)
-                        b.trace.append(['roster', row['id'], [[k, json.dumps(v)] for k, v in row.items()]])
+                        b.trace.append(['roster', row['id'], [[k, json.dumps(v, default=str)] for k, v in row.items()]])
 
     n = rng.randint(8, 25)
     # every kind of event at least three times (counts, sums and orders are only observable with repetition), then random ones
@@ -822,7 +875,7 @@ def compare_summary(hidden_json, exp):
     """first differences between a summary (as JSON through the shipped encoder) and the
     expectation from the generated events; only keys the version reports are compared"""
     def norm(x):
-        return json.loads(json.dumps(x))
+        return json.loads(json.dumps(x, default=str))
     bad = {}
     if not isinstance(hidden_json, dict):
         return {'hidden': (str(hidden_json)[:100], 'a summary')}
